@@ -53,6 +53,10 @@ struct S2 {
   std::uint32_t m;
   NOP_STRUCTURE(S2, k, (items, m));
 };
+// composites of composites: a structure inside Optional / Variant / std::array
+using OptP1 = nop::Optional<P1>;
+using VarP1 = nop::Variant<P1, std::uint8_t>;
+using ArrP1 = std::array<P1, 2>;
 // integral logical buffer with a signed size member
 struct S3 {
   std::uint16_t w[3];
@@ -294,3 +298,6 @@ VT_COMP(vt::V1, v1, 5)
 VT_COMP(vt::OptI32, opti32, 7)
 VT_COMP(vt::ResU16, resu16, 8)
 VT_COMP(vt::VarT, var, 9)
+VT_COMP(vt::OptP1, optp1, 7)
+VT_COMP(vt::VarP1, varp1, 9)
+VT_COMP(vt::ArrP1, arrp1, 12)
